@@ -77,6 +77,13 @@ class C07(HistoryProp):
             k = src.n(16)
             if k < 6:
                 f = gfact(src)
+                if f[0] == 'f' and src.n(6) == 5:
+                    # facts that are not ground lists: an open list (the queue idiom q([a|T], T)), an improper list, a
+                    # variable inside a structure
+                    nv = ('v', 'T%d' % (len(ops) + 100))
+                    shaped = src.pick([('f', '.', (('a', 'a'), nv)), ('f', '.', (('a', 'a'), ('a', 'b'))), ('f', 'f', (nv,)),
+                                       ('f', '.', (('a', 'a'), ('f', '.', (('a', 'b'), nv))))])
+                    f = ('f', f[1], (shaped,) + tuple(nv if (i == 1 and src.n(2)) else a for i, a in enumerate(f[2]) if i >= 1))
                 facts.append(f)
                 front = src.n(3) == 2
                 route = src.n(5)
